@@ -119,6 +119,7 @@ class ScrapesIO(HasIOPreview, ABC):
         """Must return a static method."""
 
     _output_labels: ClassVar[tuple[str] | None] = None  # None: scrape them
+    _scraped_output_labels: ClassVar[tuple[Callable, list[str] | None] | None] = None
     _validate_output_labels: ClassVar[bool] = True  # True: validate against source code
     _io_defining_function_uses_self: ClassVar[bool] = (
         False  # False: use entire signature
@@ -194,9 +195,17 @@ class ScrapesIO(HasIOPreview, ABC):
         Return output labels provided for the class, scraping them from the io-defining
         function if they are not already available.
         """
-        if cls._output_labels is None:
-            cls._output_labels = cls._scrape_output_labels()
-        return cls._output_labels
+        if cls._output_labels is not None:
+            return cls._output_labels  # Explicitly provided (here or in a parent class)
+        # Scraped labels belong to one particular io-defining function: remember them
+        # together with that function, so that a child class which overrides the function
+        # does not inherit the labels scraped for its parent
+        function = cls._io_defining_function()
+        scraped = cls._scraped_output_labels
+        if scraped is None or scraped[0] is not function:
+            scraped = (function, cls._scrape_output_labels())
+            cls._scraped_output_labels = scraped
+        return scraped[1]
 
     @classmethod
     @lru_cache(maxsize=1)
